@@ -646,14 +646,18 @@ pub fn spaces_mode<'a>(prop: &'a str, mode: Mode, deadline: Instant, threads: us
         }
         "C15" => {
             // prelude (misaligns the position / fills the chunk) ++ one collection life cycle ++ optional follow-up
-            let prelude = vec![al(1, 1), al(3, 1), al(24, 8), Op::AllocRem { extra: 0, align: 1 }, Op::Enter(Region::Scoped), Op::Enter(Region::Aligned(1))];
+            let mut prelude = vec![al(1, 1), al(3, 1), al(24, 8), Op::AllocRem { extra: 0, align: 1 }, Op::Enter(Region::Scoped), Op::Enter(Region::Aligned(1))];
+            if thorough {
+                // a retained later chunk (scope that grew a chunk, then left) and more alignment regions
+                prelude.extend([Op::AllocRem { extra: 1, align: 1 }, Op::Exit, Op::Enter(Region::Aligned(16)), Op::Enter(Region::ByValue)]);
+            }
             let mut sp = mk(
                 prelude,
-                2,
+                if thorough { 3 } else { 2 },
                 params(&[Handle::Direct], &[Ctor::TryNew, Ctor::Unallocated], &[z]),
                 FaultMode::None,
                 nontrivial_c15,
-                "every prelude of <= 2 operations (allocations that misalign the position or exhaust the chunk, scope / alignment regions) followed by every collection life cycle of the parameter space {MutBumpVec, MutBumpVecRev, MutBumpString, alloc_iter_mut(_rev), alloc_fmt_mut, alloc_cstr_fmt_mut} x element type (ZST, 1/1, 3/1, 8/8, 24/8, 32/32) x initial capacity x number of pushes (up to beyond two chunk capacities) x {reserve, extend with under-/over-reporting size hints} x end {drop, unwind from a user callback, into_slice, into_boxed_slice / into_str / into_cstr / helper return}, optionally followed by one more allocation; positions of all chunks are recorded at every phase; non-trivial = a life cycle with at least one element after a non-empty prelude or with a chunk switch",
+                "every prelude of <= 2 (thorough: 3, over a larger alphabet incl. a retained later chunk) operations (allocations that misalign the position or exhaust the chunk, scope / alignment regions) followed by every collection life cycle of the parameter space {MutBumpVec, MutBumpVecRev, MutBumpString, alloc_iter_mut(_rev), alloc_fmt_mut, alloc_cstr_fmt_mut, alloc_try_with_mut} x element type (ZST, 1/1, 3/1, 8/8, 24/8, 32/32) x initial capacity x number of pushes (up to beyond two chunk capacities) x {reserve, extend with under-/over-reporting size hints} x end {drop, unwind from a user callback, into_slice, into_boxed_slice / into_str / into_cstr / helper return}, optionally followed by one more allocation; positions of all chunks are recorded at every phase; non-trivial = a life cycle with at least one element after a non-empty prelude or with a chunk switch",
                 500,
             );
             sp.suffix = c15_specs(thorough);
